@@ -1,6 +1,7 @@
 /- Driver commands about the encoders and the two pure scanners (stateful: scanner tables by id). -/
 import Midi.Driver.Ctors
 import Midi.Spec.Runs
+import Midi.Model.TestUtil
 namespace Midi.Driver
 open Midi Midi.Spec
 
@@ -58,6 +59,38 @@ def modelCnPred (n : Nat) : Obs :=
 def specCnPred (n : Nat) : Obs :=
   [cBool (n < 64), (if n < 32 then ((n + 32 : Nat) : Int) else cNone),
    cBool (n == 6 || n == 38 || (96 ≤ n && n ≤ 101)), cBool (120 ≤ n)]
+
+/-- `tu2 <fn> x y z`: the test_util helpers that do not return a short message -/
+def modelTu2 (f : String) (x y z : Nat) : Option Obs :=
+  let one (r : Res Nat) : Obs := obsOf (do let v ← r; .ok [(v : Int)])
+  match f with
+  | "u4" => some (one (tuU4 x)) | "u7" => some (one (tuU7 x)) | "u14" => some (one (tuU14 x))
+  | "channel" => some (one (tuChannel x)) | "key_number" => some (one (tuKeyNumber x))
+  | "controller_number" => some (one (tuControllerNumber x))
+  | "control_change_14_bit" => some (obsOf (do let m ← tuControlChange14Bit x y z; .ok (cc14Obs m)))
+  | "nrpn" => some (obsOf (do let m ← tuPn false false x y z; .ok (pnObs m)))
+  | "nrpn_14_bit" => some (obsOf (do let m ← tuPn false true x y z; .ok (pnObs m)))
+  | "rpn" => some (obsOf (do let m ← tuPn true false x y z; .ok (pnObs m)))
+  | "rpn_14_bit" => some (obsOf (do let m ← tuPn true true x y z; .ok (pnObs m)))
+  | _ => none
+
+/-- what the helpers must do: panic exactly for out-of-range arguments (the 14-bit CC helper also for an MSB controller
+    number above 31), otherwise the described value -/
+def specTu2 (f : String) (x y z : Nat) : Option Obs :=
+  let rng (mx : Nat) : Obs := if x ≤ mx then [(x : Int)] else [cPanic .testUtilExpect]
+  let pn (reg is14 : Bool) : Obs :=
+    if x ≤ 15 && y ≤ 16383 && z ≤ (if is14 then 16383 else 127) then
+      [(x : Int), (y : Int), (z : Int), cBool reg, cBool is14, 0]
+    else [cPanic .testUtilExpect]
+  match f with
+  | "u4" => some (rng 15) | "u7" => some (rng 127) | "u14" => some (rng 16383)
+  | "channel" => some (rng 15) | "key_number" => some (rng 127) | "controller_number" => some (rng 127)
+  | "control_change_14_bit" =>
+      some (if x ≤ 15 && y ≤ 127 && z ≤ 16383 then (if y < 32 then [(x : Int), (y : Int), (z : Int)] else [cPanic .cc14MsbAssert])
+            else [cPanic .testUtilExpect])
+  | "nrpn" => some (pn false false) | "nrpn_14_bit" => some (pn false true)
+  | "rpn" => some (pn true false) | "rpn_14_bit" => some (pn true true)
+  | _ => none
 
 /-! ### scanner tables -/
 
